@@ -143,6 +143,120 @@ theorem C01_complete_below_wrap (w0 : World) (h0 : Fresh w0) (hch : w0.chani = 0
   obtain ⟨a, b, _, _, c, d⟩ := C01_complete w0 h0 hf evs hg hn hd kc ks hkc hks hc hs f hfm
   exact ⟨a, b, c, d⟩
 
+/-! ### … and with the liveness of the two processes proved instead of assumed -/
+
+/-- The environment's side for a history: connects end with an errno from the handled set (any
+other is re-raised by design), and traffic of other flow kinds is not addressed to a TCP flow's id. -/
+def SafeEvent (fin : List Nat) : LoopEvent → Prop
+  | .pass _ _ conn _ ios => HandledConn conn ∧ ∀ i, HandledConn (ios i).conn
+  | .foreign _ fr => isStreamCmd fr.cmd = false ∧ Benign fin fr
+  | _ => True
+
+theorem SafeEvent.good {fin : List Nat} {ev : LoopEvent} (h : SafeEvent fin ev) : GoodEvent ev := by
+  cases ev <;> simp only [GoodEvent]
+  exact h.1
+
+theorem round_steps_safe (fin : List Nat) (w : World) (e : End) (k : Nat) (conn : ConnRes) (sel : Sel)
+    (ios : Nat → CbIo) (hc : HandledConn conn) (hi : ∀ i, HandledConn (ios i).conn) :
+    ∀ st ∈ roundHead e w.flows.length ++ roundTail (w.run (roundHead e w.flows.length)) e k conn sel ios,
+      SafeStep fin st := by
+  intro st h
+  rcases List.mem_append.mp h with h | h
+  · simp only [roundHead, List.mem_cons, List.mem_map, List.mem_range] at h
+    rcases h with rfl | ⟨i, _, rfl⟩ <;> trivial
+  · simp only [roundTail, List.mem_append, List.mem_replicate, List.mem_flatMap] at h
+    rcases h with ⟨_, rfl⟩ | ⟨⟨i, f⟩, _, _, rfl⟩
+    · cases e
+      · trivial
+      · exact hc
+    · exact hi i
+
+theorem events_is_run_safe (fin : List Nat) (w : World) (evs : List LoopEvent) (hg : ∀ ev ∈ evs, SafeEvent fin ev) :
+    ∃ steps, (∀ st ∈ steps, SafeStep fin st) ∧ w.events evs = w.run steps ∧
+      (steps.filter isAccept).length = (evs.filter isAcceptEv).length := by
+  induction evs generalizing w with
+  | nil => exact ⟨[], fun _ h => (by cases h), rfl, rfl⟩
+  | cons a rest ih =>
+    have hrun : w.events (a :: rest) = (w.event a).events rest := by simp only [World.events, List.foldl_cons]
+    obtain ⟨s2, g2, r2, c2⟩ := ih (w.event a) (fun ev hev => hg ev (List.mem_cons_of_mem _ hev))
+    have ha := hg a List.mem_cons_self
+    have hone : ∃ s1, (∀ st ∈ s1, SafeStep fin st) ∧ w.event a = w.run s1 ∧
+        (s1.filter isAccept).length = (if isAcceptEv a then 1 else 0) := by
+      cases a with
+      | pass e k conn sel ios =>
+        refine ⟨roundHead e w.flows.length ++ roundTail (w.run (roundHead e w.flows.length)) e k conn sel ios,
+          round_steps_safe fin w e k conn sel ios ha.1 ha.2, by simp only [World.event, World.round, run_append], ?_⟩
+        apply filter_accept_loopMoves
+        intro st h
+        rcases List.mem_append.mp h with h | h
+        · exact roundHead_moves _ _ st h
+        · exact roundTail_moves _ _ _ _ _ _ st h
+      | accept => exact ⟨[.accept], fun st h => (by simp only [List.mem_singleton] at h; subst h; trivial), rfl, rfl⟩
+      | checkFull e => exact ⟨[.checkFull e], fun st h => (by simp only [List.mem_singleton] at h; subst h; trivial), rfl, rfl⟩
+      | foreign e f =>
+        refine ⟨[.foreign e f], fun st h => ?_, rfl, rfl⟩
+        simp only [List.mem_singleton] at h; subst h
+        exact ha
+      | appWrite i b => exact ⟨[.appWrite i b], fun st h => (by simp only [List.mem_singleton] at h; subst h; trivial), rfl, rfl⟩
+      | appEof i => exact ⟨[.appEof i], fun st h => (by simp only [List.mem_singleton] at h; subst h; trivial), rfl, rfl⟩
+      | dstWrite i b => exact ⟨[.dstWrite i b], fun st h => (by simp only [List.mem_singleton] at h; subst h; trivial), rfl, rfl⟩
+      | dstEof i => exact ⟨[.dstEof i], fun st h => (by simp only [List.mem_singleton] at h; subst h; trivial), rfl, rfl⟩
+    obtain ⟨s1, g1, r1, c1⟩ := hone
+    refine ⟨s1 ++ s2, ?_, ?_, ?_⟩
+    · intro st h
+      rcases List.mem_append.mp h with h | h
+      · exact g1 st h
+      · exact g2 st h
+    · rw [hrun, r2, r1, run_append]
+    · rw [List.filter_append, List.length_append, c1, c2, List.filter_cons]
+      split <;> simp <;> omega
+
+/-- **C01 + C02 + C08 in one statement, for every session below a full cycle of the identifier
+space.**  Start both processes (`Boot`), the client having handed out no identifier and sharing the
+identifier space with no other flow kind, latency control at rest.  Take ANY history of the two
+select loops in their own alphabet — at most `maxChan` connections accepted; the endpoints write and
+close whenever they like; `check_fullness` or not; traffic of other flow kinds not addressed to a
+TCP flow's identifier; `runonce` passes at either end in any order, with whatever `select` reported
+and whatever the sockets answered (resets, broken pipes, failing shutdowns, short reads and writes,
+connects ending with any errno of the handled set).  Then:
+
+* neither process has ended (`died = none` — not a hypothesis any more);
+* no two flows ever shared an identifier, and every endpoint has received a prefix of what its own
+  peer wrote;
+* and once a pass at each end no longer lowers the termination measure — which happens after at
+  most `worldMu` effective passes — every endpoint whose socket is still open has received exactly
+  what the tunnel read from its peer, and every close has been passed on. -/
+theorem C01_C02_C08_session (w0 : World) (hb : Boot w0) (hch : w0.chani = 0) (hex : w0.extraOcc = [])
+    (hf : w0.cm.tooFull = false ∧ w0.sm.tooFull = false) (evs : List LoopEvent)
+    (hg : ∀ ev ∈ evs, SafeEvent (chans (w0.events evs)) ev)
+    (hacc : (evs.filter isAcceptEv).length ≤ w0.maxChan) :
+    (w0.events evs).died = none ∧ (chans (w0.events evs)).Nodup ∧
+    (∀ f ∈ (w0.events evs).flows,
+      f.dst.delivered <+: written f.app ∧ f.app.delivered <+: written f.dst) ∧
+    ∀ kc ks : Nat,
+      ((w0.events evs).sm.out ≠ [] → 0 < kc) → ((w0.events evs).cm.out ≠ [] → 0 < ks) →
+      worldMu ((w0.events evs).roundAuto .client kc fullIo) = worldMu (w0.events evs) →
+      worldMu ((w0.events evs).roundAuto .server ks fullIo) = worldMu (w0.events evs) →
+      ∀ f ∈ (w0.events evs).flows,
+        (f.dst.sawShut = false → f.app.pending = [] → f.dst.delivered = written f.app) ∧
+        (f.app.sawShut = false → f.dst.pending = [] → f.app.delivered = written f.dst) ∧
+        (f.app.eofIn = true → f.app.pending = [] → f.dst.sawShut = true) ∧
+        (f.dst.eofIn = true → f.dst.pending = [] → f.app.sawShut = true) := by
+  obtain ⟨steps, hsafe, hrun, hcount⟩ := events_is_run_safe (chans (w0.events evs)) w0 evs hg
+  have hn : (chans (w0.events evs)).Nodup := by
+    rw [hrun]
+    exact (C06_session_ids_distinct w0 hb.1 hch hex steps (by rw [hcount]; exact hacc)).2
+  have hd : (w0.events evs).died = none := by
+    rw [hrun] at hsafe hn ⊢
+    exact C08_no_death w0 hb steps hsafe hn
+  have hgood : ∀ st ∈ steps, GoodStep st := fun st h => (hsafe st h).good
+  refine ⟨hd, hn, ?_, ?_⟩
+  · rw [hrun] at hn ⊢
+    exact C01_prefix w0 hb.fresh steps hgood hn
+  · intro kc ks hkc hks hc hs
+    exact C01_complete_below_wrap w0 hb.fresh hch hex hf evs (fun ev hev => (hg ev hev).good) hacc hd
+      kc ks hkc hks hc hs
+
 /-- The hypotheses are met by a whole connection in the loop's alphabet (`demoHistory`): three
 bytes written, both endpoints close, five passes per end; at rest the three bytes have arrived. -/
 example :
@@ -153,5 +267,20 @@ example :
   intro w
   exact ⟨⟨rfl, by decide, by decide⟩, by decide +kernel, by decide +kernel, by decide +kernel, by decide +kernel,
     by decide +kernel⟩
+
+/-- The premises of `C01_C02_C08_session` are met by `demoHistory` from the empty world. -/
+example : Boot ({} : World) ∧ (∀ ev ∈ demoHistory, SafeEvent [] ev) ∧
+    (demoHistory.filter isAcceptEv).length ≤ ({} : World).maxChan := by
+  refine ⟨⟨rfl, rfl, fun _ h => (by cases h), fun _ h => (by cases h)⟩, ?_, by decide⟩
+  intro ev hev
+  simp only [demoHistory, List.mem_append, List.mem_cons, List.mem_flatten, List.mem_replicate] at hev
+  rcases hev with (rfl | rfl | rfl | rfl | h) | ⟨l, ⟨_, rfl⟩, h⟩
+  · trivial
+  · trivial
+  · trivial
+  · trivial
+  · cases h
+  · simp only [List.mem_cons, List.not_mem_nil, or_false] at h
+    rcases h with rfl | rfl <;> exact ⟨trivial, fun _ => trivial⟩
 
 end Sshuttle.Tunnel
